@@ -170,6 +170,9 @@ func TestDrv_C19(t *testing.T) {
 	for i := 0; i < nOther; i++ {
 		// -header
 		nt := 1 + r.Intn(6)
+		if i%10 == 3 {
+			nt = 20 + r.Intn(20) // many repeated -header flags
+		}
 		toks := make([]KV, nt)
 		sets := make([][2]string, nt)
 		for k := range toks {
@@ -193,6 +196,9 @@ func TestDrv_C19(t *testing.T) {
 		jobs = append(jobs, job{"MaxBody", KV{"text": text, "n": n, "k": k, "minus1": text == "-1"}, 1})
 		// -connect-to
 		ntup := 1 + r.Intn(5)
+		if i%10 == 7 {
+			ntup = 15 + r.Intn(15)
+		}
 		tups := make([]KV, ntup)
 		sets = make([][2]string, ntup)
 		for k := range tups {
@@ -213,6 +219,9 @@ func TestDrv_C19(t *testing.T) {
 		jobs = append(jobs, job{"DNSTTL", KV{"text": dtext, "kind": dk, "n": dn, "unit": du}, 1})
 		// -resolvers (loopback addresses so that the UDP "connection" needs no network)
 		na := 1 + r.Intn(4)
+		if i%10 == 9 {
+			na = 8 + r.Intn(8)
+		}
 		addrs := make([]KV, na)
 		var parts []string
 		for k := range addrs {
